@@ -23,11 +23,20 @@ theorem pairUp_dupLast (H : Bytes → Bytes) : ∀ l : List Bytes, pairUp H (dup
         rw [if_pos h1, if_pos hr]
         cases r with
         | nil => simp at hr
-        | cons c r' => simp [List.getLast?_cons_cons]
+        | cons c r' =>
+          simp only [List.getLast?_cons_cons]
+          cases (c :: r').getLast? <;> simp
       · have h1 : ¬ (a :: b :: r).length % 2 = 1 := by simp only [List.length_cons]; omega
         rw [if_neg h1, if_neg hr]
     rw [hd]
     simp only [pairUp, levelUp, merkleParent, ih]
+
+/-- helper.merkle_parent_level is one level of ComputeMerkleRoot, and leaves the duplicated hash in the caller's list -/
+theorem merkleParentLevel_eq (H : Bytes → Bytes) (l : List Bytes) (h : l.length ≠ 1) :
+    merkleParentLevel H l = some (levelUp H l, dupLast l) := by
+  unfold merkleParentLevel
+  rw [if_neg h]
+  simp only [pairUp_dupLast]
 
 theorem merkleRootLoop_eq_levelRoot (H : Bytes → Bytes) (l : List Bytes) :
     merkleRootLoop H l = levelRoot H l := by
@@ -38,3 +47,1227 @@ theorem merkleRootLoop_eq_levelRoot (H : Bytes → Bytes) (l : List Bytes) :
     rw [merkleRootLoop, levelRoot]
     simp only [List.length_cons, gt_iff_lt, show 1 < r.length + 1 + 1 by omega, ↓reduceDIte]
     rw [pairUp_dupLast, ih]
+
+theorem levelUp_dupLast (H : Bytes → Bytes) : ∀ l : List Bytes, levelUp H (dupLast l) = levelUp H l
+  | [] => by simp [dupLast]
+  | [a] => by simp [dupLast, levelUp]
+  | a :: b :: r => by
+    have ih := levelUp_dupLast H r
+    have hd : dupLast (a :: b :: r) = a :: b :: dupLast r := by
+      unfold dupLast
+      by_cases hr : r.length % 2 = 1
+      · have h1 : (a :: b :: r).length % 2 = 1 := by simp only [List.length_cons]; omega
+        rw [if_pos h1, if_pos hr]
+        cases r with
+        | nil => simp at hr
+        | cons c r' =>
+          simp only [List.getLast?_cons_cons]
+          cases (c :: r').getLast? <;> simp
+      · have h1 : ¬ (a :: b :: r).length % 2 = 1 := by simp only [List.length_cons]; omega
+        rw [if_neg h1, if_neg hr]
+    rw [hd]; simp only [levelUp, ih]
+
+theorem dupLast_length_even (l : List Bytes) (h : l ≠ []) : (dupLast l).length % 2 = 0 := by
+  unfold dupLast
+  split
+  · next h1 =>
+    cases hl : l.getLast? with
+    | none => simp [List.getLast?_eq_none_iff] at hl; exact absurd hl h
+    | some x => simp; omega
+  · omega
+
+theorem dupLast_of_even (l : List Bytes) (h : l.length % 2 = 0) : dupLast l = l := by
+  unfold dupLast; rw [if_neg (by omega)]
+
+theorem levelRoot_unfold (H : Bytes → Bytes) (l : List Bytes) (h : 1 < l.length) :
+    levelRoot H l = levelRoot H (levelUp H l) := by
+  match l, h with
+  | a :: b :: r, _ => rw [levelRoot]
+
+theorem levelRoot_single (H : Bytes → Bytes) (a : Bytes) : levelRoot H [a] = some a := by rw [levelRoot]
+
+theorem levelRoot_isSome (H : Bytes → Bytes) (l : List Bytes) (h : l ≠ []) : (levelRoot H l).isSome := by
+  induction l using levelRoot.induct H with
+  | case1 => exact absurd rfl h
+  | case2 a => rw [levelRoot]; rfl
+  | case3 a b r ih =>
+    rw [levelRoot]; apply ih
+    simp [levelUp]
+
+/-- helper.merkle_root in terms of ComputeMerkleRoot, with the list as the call leaves it -/
+theorem merkleRoot_eq (H : Bytes → Bytes) (l : List Bytes) :
+    merkleRoot H l = (levelRoot H l).map (·, if l.length > 1 then dupLast l else l) := by
+  unfold merkleRoot; rw [merkleRootLoop_eq_levelRoot]
+
+/-- the list a first call leaves behind gives the same root, and is not changed again -/
+theorem merkleRoot_again (H : Bytes → Bytes) (l l' : List Bytes) (r : Bytes)
+    (h : merkleRoot H l = some (r, l')) : merkleRoot H l' = some (r, l') := by
+  rw [merkleRoot_eq] at h ⊢
+  cases hr : levelRoot H l with
+  | none => rw [hr] at h; cases h
+  | some r0 =>
+    rw [hr] at h
+    simp only [Option.map_some, Option.some.injEq, Prod.mk.injEq] at h
+    obtain ⟨h1, h2⟩ := h
+    subst h1
+    by_cases hl : l.length > 1
+    · rw [if_pos hl] at h2
+      have hne : l ≠ [] := by intro h0; rw [h0] at hl; simp at hl
+      have hev := dupLast_length_even l hne
+      have hroot : levelRoot H l' = some r0 := by
+        rw [← h2, levelRoot_unfold H _ (by have := dupLast_length_le l; unfold dupLast; split <;> (try split) <;> simp <;> omega),
+          levelUp_dupLast, ← levelRoot_unfold H l hl, hr]
+      rw [hroot, ← h2, dupLast_of_even _ hev]
+      simp
+    · rw [if_neg hl] at h2
+      subst h2
+      rw [hr, if_neg hl]; rfl
+
+/-! ## level recursion = tree recursion (CalcHash at the top node) -/
+
+theorem levelUp_take (H : Bytes → Bytes) : ∀ (k : Nat) (l : List Bytes), levelUp H (l.take (2 * k)) = (levelUp H l).take k
+  | 0, l => by simp [levelUp]
+  | k + 1, [] => by simp [levelUp]
+  | k + 1, [a] => by
+    rw [show 2 * (k + 1) = (2 * k + 1) + 1 by omega]
+    simp [levelUp]
+  | k + 1, a :: b :: r => by
+    rw [show 2 * (k + 1) = (2 * k + 1) + 1 by omega]
+    simp only [List.take_succ_cons, levelUp, levelUp_take H k r]
+
+theorem levelUp_drop (H : Bytes → Bytes) : ∀ (k : Nat) (l : List Bytes), levelUp H (l.drop (2 * k)) = (levelUp H l).drop k
+  | 0, l => by simp
+  | k + 1, [] => by simp [levelUp]
+  | k + 1, [a] => by
+    rw [show 2 * (k + 1) = (2 * k + 1) + 1 by omega]
+    simp [levelUp]
+  | k + 1, a :: b :: r => by
+    rw [show 2 * (k + 1) = (2 * k + 1) + 1 by omega]
+    simp only [List.drop_succ_cons, levelUp, levelUp_drop H k r]
+
+theorem calcHash_succ (H : Bytes → Bytes) (h : Nat) (seg : List Bytes) :
+    calcHash H (h + 1) seg = H (calcHash H h (seg.take (2 ^ h)) ++
+      (if seg.length > 2 ^ h then calcHash H h (seg.drop (2 ^ h)) else calcHash H h (seg.take (2 ^ h)))) := rfl
+
+theorem calcHash_levelUp (H : Bytes → Bytes) : ∀ (h : Nat) (l : List Bytes), 0 < l.length → l.length ≤ 2 ^ (h + 1) →
+    calcHash H (h + 1) l = calcHash H h (levelUp H l)
+  | 0, l, h0, h1 => by
+    match l, h0, h1 with
+    | [a], _, _ => simp [calcHash, levelUp]
+    | [a, b], _, _ => simp [calcHash, levelUp]
+    | a :: b :: c :: r, _, h1 => simp at h1
+  | h + 1, l, h0, h1 => by
+    have hp : 0 < 2 ^ h := Nat.two_pow_pos _
+    have e1 : 2 ^ (h + 1) = 2 * 2 ^ h := by rw [Nat.pow_succ]; omega
+    have e2 : 2 ^ (h + 1 + 1) = 2 * (2 * 2 ^ h) := by rw [Nat.pow_succ, e1]; omega
+    rw [calcHash_succ H (h + 1) l, calcHash_succ H h (levelUp H l)]
+    have hl : (levelUp H l).length = (l.length + 1) / 2 := levelUp_length H l
+    have ihL := calcHash_levelUp H h (l.take (2 ^ (h + 1))) (by simp only [List.length_take]; omega)
+      (by simp only [List.length_take]; omega)
+    rw [ihL, e1, levelUp_take]
+    by_cases hc : l.length > 2 * 2 ^ h
+    · have hc' : (levelUp H l).length > 2 ^ h := by rw [hl]; omega
+      rw [if_pos hc, if_pos hc']
+      have ihR := calcHash_levelUp H h (l.drop (2 ^ (h + 1))) (by simp only [List.length_drop]; omega)
+        (by simp only [List.length_drop]; omega)
+      rw [e1] at ihR
+      rw [ihR, levelUp_drop]
+    · have hc' : ¬ (levelUp H l).length > 2 ^ h := by rw [hl]; omega
+      rw [if_neg hc, if_neg hc']
+
+/-- the height of the tree over `n` leaves: `n ≤ 2^h`, and `h` is the least such -/
+def IsCeilLog2 (n h : Nat) : Prop := n ≤ 2 ^ h ∧ (h = 0 ∨ 2 ^ (h - 1) < n)
+
+theorem IsCeilLog2.unique {n a b : Nat} (ha : IsCeilLog2 n a) (hb : IsCeilLog2 n b) : a = b := by
+  rcases Nat.lt_trichotomy a b with h | h | h
+  · exfalso
+    rcases hb.2 with h0 | h0
+    · omega
+    · have : 2 ^ a ≤ 2 ^ (b - 1) := Nat.pow_le_pow_right (by omega) (by omega)
+      have := ha.1; omega
+  · exact h
+  · exfalso
+    rcases ha.2 with h0 | h0
+    · omega
+    · have : 2 ^ b ≤ 2 ^ (a - 1) := Nat.pow_le_pow_right (by omega) (by omega)
+      have := hb.1; omega
+
+theorem levelRoot_eq_calcHash (H : Bytes → Bytes) : ∀ (h : Nat) (l : List Bytes), 0 < l.length → IsCeilLog2 l.length h →
+    levelRoot H l = some (calcHash H h l)
+  | 0, l, h0, hc => by
+    have : l.length ≤ 1 := by simpa using hc.1
+    match l, h0, this with
+    | [a], _, _ => rw [levelRoot]; rfl
+  | h + 1, l, h0, hc => by
+    have hp : 0 < 2 ^ h := Nat.two_pow_pos _
+    have e1 : 2 ^ (h + 1) = 2 * 2 ^ h := by rw [Nat.pow_succ]; omega
+    have hlo : 2 ^ h < l.length := by
+      rcases hc.2 with h1 | h1
+      · omega
+      · simpa using h1
+    have hhi := hc.1
+    rw [levelRoot_unfold H l (by omega), calcHash_levelUp H h l h0 hhi]
+    have hl : (levelUp H l).length = (l.length + 1) / 2 := levelUp_length H l
+    apply levelRoot_eq_calcHash H h (levelUp H l) (by rw [hl]; omega)
+    refine ⟨by rw [hl]; omega, ?_⟩
+    cases h with
+    | zero => left; rfl
+    | succ k =>
+      right
+      have e3 : 2 ^ (k + 1) = 2 * 2 ^ k := by rw [Nat.pow_succ]; omega
+      simp only [Nat.add_sub_cancel]
+      rw [hl]; omega
+
+theorem ceilLog2Aux_spec (n : Nat) : ∀ (fuel h : Nat), n ≤ 2 ^ (h + fuel) → (h = 0 ∨ 2 ^ (h - 1) < n) →
+    IsCeilLog2 n (ceilLog2Aux n fuel h)
+  | 0, h, h1, h2 => by simpa [ceilLog2Aux, IsCeilLog2] using ⟨h1, h2⟩
+  | f + 1, h, h1, h2 => by
+    unfold ceilLog2Aux
+    split
+    · next hle => exact ⟨hle, h2⟩
+    · next hgt =>
+      apply ceilLog2Aux_spec n f (h + 1) (by rw [show h + 1 + f = h + (f + 1) by omega]; exact h1)
+      right; simp only [Nat.add_sub_cancel]; omega
+
+theorem ceilLog2_spec (n : Nat) : IsCeilLog2 n (ceilLog2 n) := by
+  unfold ceilLog2
+  apply ceilLog2Aux_spec n n 0
+  · simpa using Nat.le_of_lt (Nat.lt_two_pow_self (n := n))
+  · left; rfl
+
+/-- ComputeMerkleRoot = CalcHash at the top node -/
+theorem levelRoot_eq_treeRoot (H : Bytes → Bytes) (l : List Bytes) (h : l ≠ []) :
+    levelRoot H l = some (treeRoot H l) := by
+  have h0 : 0 < l.length := List.length_pos_iff.mpr h
+  exact levelRoot_eq_calcHash H _ l h0 (ceilLog2_spec l.length)
+
+theorem bitLength_spec : ∀ m : Nat, m < 2 ^ bitLength m ∧ (bitLength m = 0 ∨ 2 ^ (bitLength m - 1) ≤ m)
+  | 0 => by rw [bitLength]; simp
+  | m + 1 => by
+    rw [bitLength]
+    have ih := bitLength_spec ((m + 1) / 2)
+    have e : 2 ^ (bitLength ((m + 1) / 2) + 1) = 2 * 2 ^ bitLength ((m + 1) / 2) := by rw [Nat.pow_succ]; omega
+    refine ⟨by rw [e]; omega, Or.inr ?_⟩
+    simp only [Nat.add_sub_cancel]
+    rcases ih.2 with h0 | h0
+    · rw [h0]; simp
+    · have : 2 ^ bitLength ((m + 1) / 2) = 2 * 2 ^ (bitLength ((m + 1) / 2) - 1) := by
+        cases hb : bitLength ((m + 1) / 2) with
+        | zero =>
+          rw [hb] at h0 ih
+          simp at ih
+          omega
+        | succ k => rw [Nat.pow_succ]; simp; omega
+      omega
+decreasing_by omega
+
+theorem bitLength_pred_isCeilLog2 (n : Nat) (hn : 0 < n) : IsCeilLog2 n (bitLength (n - 1)) := by
+  have := bitLength_spec (n - 1)
+  refine ⟨by omega, ?_⟩
+  rcases this.2 with h | h
+  · left; exact h
+  · right; omega
+
+/-! ## level sizes -/
+
+theorem lt_levelSize_iff (n D d i : Nat) : i < levelSize n D d ↔ i * 2 ^ (D - d) < n := by
+  unfold levelSize
+  have hp : 0 < 2 ^ (D - d) := Nat.two_pow_pos _
+  generalize 2 ^ (D - d) = p at hp
+  rw [Nat.lt_iff_add_one_le, Nat.le_div_iff_mul_le hp]
+  constructor
+  · intro h; rw [Nat.add_mul] at h; omega
+  · intro h; rw [Nat.add_mul]; omega
+
+/-! ## the cursor machine of populate_tree simulated by the recursive traversal -/
+
+/-- node `(d', i')` lies in the subtree of node `(d, i)` -/
+def InSub (d i d' i' : Nat) : Prop := d ≤ d' ∧ i' / 2 ^ (d' - d) = i
+
+/-- `g` agrees with `f` outside the subtree of `(d, i)` -/
+def Untouched (d i : Nat) (f g : Nat → Nat → Option Bytes) : Prop := ∀ d' i', ¬ InSub d i d' i' → g d' i' = f d' i'
+
+def upd (f : Nat → Nat → Option Bytes) (d i : Nat) (v : Bytes) : Nat → Nat → Option Bytes :=
+  fun d' i' => if d' = d ∧ i' = i then some v else f d' i'
+
+theorem InSub.self (d i : Nat) : InSub d i d i := ⟨Nat.le_refl _, by simp⟩
+
+theorem InSub.of_left {d i d' i' : Nat} (h : InSub (d + 1) (2 * i) d' i') : InSub d i d' i' := by
+  obtain ⟨h1, h2⟩ := h
+  refine ⟨by omega, ?_⟩
+  have e : d' - d = (d' - (d + 1)) + 1 := by omega
+  rw [e, Nat.pow_succ, ← Nat.div_div_eq_div_mul, h2]; omega
+
+theorem InSub.of_right {d i d' i' : Nat} (h : InSub (d + 1) (2 * i + 1) d' i') : InSub d i d' i' := by
+  obtain ⟨h1, h2⟩ := h
+  refine ⟨by omega, ?_⟩
+  have e : d' - d = (d' - (d + 1)) + 1 := by omega
+  rw [e, Nat.pow_succ, ← Nat.div_div_eq_div_mul, h2]; omega
+
+theorem InSub.left_right_disjoint {d i d' i' : Nat} (h : InSub (d + 1) (2 * i) d' i') : ¬ InSub (d + 1) (2 * i + 1) d' i' := by
+  intro h'; have := h.2; have := h'.2; omega
+
+theorem not_inSub_child_self (d i j : Nat) : ¬ InSub (d + 1) j d i := by
+  intro h; have := h.1; omega
+
+/-- the state of the machine as an explicit record -/
+abbrev mk (n D : Nat) (nodes : Nat → Nat → Option Bytes) (d i : Nat) (fb : List Bool) (hs pv : List Bytes) : TreeSt :=
+  { total := n, maxD := D, nodes := nodes, depth := d, index := i, flagBits := fb, hashes := hs, proved := pv }
+
+theorem get_eq (n D : Nat) (nodes) (d i fb hs pv) (d' i' : Nat) (hd : d' ≤ D) (hi : i' * 2 ^ (D - d') < n) :
+    (mk n D nodes d i fb hs pv).get d' i' = some (nodes d' i') := by
+  unfold TreeSt.get
+  rw [if_pos ⟨hd, (lt_levelSize_iff n D d' i').mpr hi⟩]
+
+theorem set_eq (n D : Nat) (nodes) (d i fb hs pv) (d' i' : Nat) (v : Bytes) (hd : d' ≤ D) (hi : i' * 2 ^ (D - d') < n) :
+    (mk n D nodes d i fb hs pv).set d' i' v = some (mk n D (upd nodes d' i' v) d i fb hs pv) := by
+  unfold TreeSt.set
+  rw [if_pos ⟨hd, (lt_levelSize_iff n D d' i').mpr hi⟩]; rfl
+
+theorem runLoop_step (H : Bytes → Bytes) (fuel : Nat) (s s' : TreeSt) (hroot : s.get 0 0 = some none)
+    (hs : step H s = some s') : runLoop H (fuel + 1) s = runLoop H fuel s' := by
+  simp only [runLoop, hroot, hs]
+
+theorem runLoop_step_none (H : Bytes → Bytes) (fuel : Nat) (s : TreeSt) (hroot : s.get 0 0 = some none)
+    (hs : step H s = none) : runLoop H (fuel + 1) s = none := by
+  simp only [runLoop, hroot, hs]
+
+theorem root_get (n D : Nat) (hn : 0 < n) (nodes) (d i fb hs pv) (hr : nodes 0 0 = none) :
+    (mk n D nodes d i fb hs pv).get 0 0 = some none := by
+  rw [get_eq n D nodes d i fb hs pv 0 0 (Nat.zero_le _) (by simpa using hn), hr]
+
+/-- leaf: pop a flag bit and a hash -/
+theorem step_leaf (H : Bytes → Bytes) (n D : Nat) (nodes) (i : Nat) (b : Bool) (fb : List Bool) (x : Bytes) (hs pv : List Bytes)
+    (hi : i < n) :
+    step H (mk n D nodes D i (b :: fb) (x :: hs) pv)
+      = some (mk n D (upd nodes D i x) (D - 1) (i / 2) fb hs (if b then pv ++ [x.reverse] else pv)) := by
+  unfold step
+  simp only [if_true]
+  have := set_eq n D nodes D i fb hs pv D i x (Nat.le_refl _) (by simpa using hi)
+  simp only [mk] at this
+  simp only [this, Option.bind_eq_bind, Option.bind_some, Option.pure_def]
+  cases b <;> rfl
+
+theorem step_leaf_none (H : Bytes → Bytes) (n D : Nat) (nodes) (i : Nat) (fb : List Bool) (hs pv : List Bytes)
+    (h : fb = [] ∨ hs = []) : step H (mk n D nodes D i fb hs pv) = none := by
+  unfold step
+  simp only [if_true]
+  rcases h with h | h
+  · subst h; rfl
+  · subst h; cases fb <;> rfl
+
+section inner
+variable (H : Bytes → Bytes) (n D : Nat) (nodes : Nat → Nat → Option Bytes) (d i : Nat) (fb : List Bool) (hs pv : List Bytes)
+
+theorem child_bound (hd : d < D) (hi : i * 2 ^ (D - d) < n) : (i * 2) * 2 ^ (D - (d + 1)) < n := by
+  have e : D - d = (D - (d + 1)) + 1 := by omega
+  rw [e, Nat.pow_succ] at hi
+  rw [Nat.mul_assoc, Nat.mul_comm 2]; exact hi
+
+theorem rightExists_eq (hd : d < D) :
+    (mk n D nodes d i fb hs pv).rightExists = some (decide ((i * 2 + 1) * 2 ^ (D - (d + 1)) < n)) := by
+  unfold TreeSt.rightExists
+  rw [if_pos (by show d + 1 ≤ D; omega)]
+  congr 1
+  have := lt_levelSize_iff n D (d + 1) (i * 2 + 1)
+  simp only [gt_iff_lt, decide_eq_decide]
+  exact this
+
+/-- inner node, left child not yet known, flag 0: the next hash is this node -/
+theorem step_inner_skip (hd : d < D) (hi : i * 2 ^ (D - d) < n) (hl : nodes (d + 1) (i * 2) = none) (x : Bytes) :
+    step H (mk n D nodes d i (false :: fb) (x :: hs) pv) = some (mk n D (upd nodes d i x) (d - 1) (i / 2) fb hs pv) := by
+  unfold step
+  have hne : ¬ d = D := by omega
+  simp only [mk, hne, if_false]
+  have hg := get_eq n D nodes d i (false :: fb) (x :: hs) pv (d + 1) (i * 2) (by omega) (child_bound n D d i hd hi)
+  simp only [mk] at hg
+  simp only [hg, hl, Option.bind_eq_bind, Option.bind_some]
+  have := set_eq n D nodes d i fb hs pv d i x (by omega) hi
+  simp only [mk] at this
+  simp only [this, Option.bind_some, Option.pure_def]
+  rfl
+
+/-- inner node, left child not yet known, flag 1: descend to the left -/
+theorem step_inner_descend (hd : d < D) (hi : i * 2 ^ (D - d) < n) (hl : nodes (d + 1) (i * 2) = none) :
+    step H (mk n D nodes d i (true :: fb) hs pv) = some (mk n D nodes (d + 1) (i * 2) fb hs pv) := by
+  unfold step
+  have hne : ¬ d = D := by omega
+  simp only [mk, hne, if_false]
+  have hg := get_eq n D nodes d i (true :: fb) hs pv (d + 1) (i * 2) (by omega) (child_bound n D d i hd hi)
+  simp only [mk] at hg
+  simp only [hg, hl, Option.bind_eq_bind, Option.bind_some, Option.pure_def]
+  rfl
+
+/-- inner node, left child not yet known: no flag bit, or flag 0 and no hash: IndexError -/
+theorem step_inner_none (hd : d < D) (hi : i * 2 ^ (D - d) < n) (hl : nodes (d + 1) (i * 2) = none)
+    (h : fb = [] ∨ (fb.head? = some false ∧ hs = [])) :
+    step H (mk n D nodes d i fb hs pv) = none := by
+  unfold step
+  have hne : ¬ d = D := by omega
+  simp only [mk, hne, if_false]
+  have hg := get_eq n D nodes d i fb hs pv (d + 1) (i * 2) (by omega) (child_bound n D d i hd hi)
+  simp only [mk] at hg
+  simp only [hg, hl, Option.bind_eq_bind, Option.bind_some]
+  rcases h with h | ⟨h1, h2⟩
+  · subst h; rfl
+  · subst h2
+    cases fb with
+    | nil => rfl
+    | cons b r => simp at h1; subst h1; rfl
+
+/-- inner node, left child known, right child exists and is not yet known: go right -/
+theorem step_inner_right (hd : d < D) (hi : i * 2 ^ (D - d) < n) (xl : Bytes) (hl : nodes (d + 1) (i * 2) = some xl)
+    (hre : (i * 2 + 1) * 2 ^ (D - (d + 1)) < n) (hr : nodes (d + 1) (i * 2 + 1) = none) :
+    step H (mk n D nodes d i fb hs pv) = some (mk n D nodes (d + 1) (i * 2 + 1) fb hs pv) := by
+  unfold step
+  have hne : ¬ d = D := by omega
+  have hg := get_eq n D nodes d i fb hs pv (d + 1) (i * 2) (by omega) (child_bound n D d i hd hi)
+  have hg2 := get_eq n D nodes d i fb hs pv (d + 1) (i * 2 + 1) (by omega) hre
+  have hrx := rightExists_eq n D nodes d i fb hs pv hd
+  simp only [mk] at hg hg2 hrx
+  simp only [hne, if_false, hg, hl, Option.bind_eq_bind, Option.bind_some, hrx, hre, decide_true, if_true, hg2, hr,
+    Option.pure_def]
+  rfl
+
+/-- inner node, both children known: combine -/
+theorem step_inner_combine (hd : d < D) (hi : i * 2 ^ (D - d) < n) (xl xr : Bytes) (hl : nodes (d + 1) (i * 2) = some xl)
+    (hre : (i * 2 + 1) * 2 ^ (D - (d + 1)) < n) (hr : nodes (d + 1) (i * 2 + 1) = some xr) :
+    step H (mk n D nodes d i fb hs pv) = some (mk n D (upd nodes d i (H (xl ++ xr))) (d - 1) (i / 2) fb hs pv) := by
+  unfold step
+  have hne : ¬ d = D := by omega
+  have hg := get_eq n D nodes d i fb hs pv (d + 1) (i * 2) (by omega) (child_bound n D d i hd hi)
+  have hg2 := get_eq n D nodes d i fb hs pv (d + 1) (i * 2 + 1) (by omega) hre
+  have hrx := rightExists_eq n D nodes d i fb hs pv hd
+  have hset := set_eq n D nodes d i fb hs pv d i (H (xl ++ xr)) (by omega) hi
+  simp only [mk] at hg hg2 hrx hset
+  simp only [mk, hne, if_false, hg, hl, Option.bind_eq_bind, Option.bind_some, hrx, hre, decide_true, if_true, hg2, hr,
+    merkleParent, hset, Option.pure_def]
+  rfl
+
+/-- inner node, left child known, no right child: combine the left hash with itself -/
+theorem step_inner_single (hd : d < D) (hi : i * 2 ^ (D - d) < n) (xl : Bytes) (hl : nodes (d + 1) (i * 2) = some xl)
+    (hre : ¬ (i * 2 + 1) * 2 ^ (D - (d + 1)) < n) :
+    step H (mk n D nodes d i fb hs pv) = some (mk n D (upd nodes d i (H (xl ++ xl))) (d - 1) (i / 2) fb hs pv) := by
+  unfold step
+  have hne : ¬ d = D := by omega
+  have hg := get_eq n D nodes d i fb hs pv (d + 1) (i * 2) (by omega) (child_bound n D d i hd hi)
+  have hrx := rightExists_eq n D nodes d i fb hs pv hd
+  have hset := set_eq n D nodes d i fb hs pv d i (H (xl ++ xl)) (by omega) hi
+  simp only [mk] at hg hrx hset
+  simp only [mk, hne, if_false, hg, hl, Option.bind_eq_bind, Option.bind_some, hrx, hre, decide_false, merkleParent, hset,
+    Option.pure_def]
+  rfl
+
+end inner
+
+theorem extract_zero_cons (H : Bytes → Bytes) (c : Nat) (b : Bool) (bits : List Bool) (x : Bytes) (hs : List Bytes) :
+    extract H 0 c (b :: bits) (x :: hs) = some (x, if b then [x] else [], bits, hs) := by simp [extract]
+
+theorem extract_zero_none (H : Bytes → Bytes) (c : Nat) (bits : List Bool) (hs : List Bytes) (h : bits = [] ∨ hs = []) :
+    extract H 0 c bits hs = none := by
+  rcases h with h | h
+  · subst h; simp [extract]
+  · subst h; cases bits <;> simp [extract]
+
+theorem extract_succ_true_none (H : Bytes → Bytes) (h c : Nat) (bits : List Bool) (hs : List Bytes)
+    (hL : extract H h (min c (2 ^ h)) bits hs = none) : extract H (h + 1) c (true :: bits) hs = none := by
+  rw [extract, hL]
+
+theorem extract_succ_true_single (H : Bytes → Bytes) (h c : Nat) (bits : List Bool) (hs : List Bytes)
+    (l : Bytes) (ml : List Bytes) (b1 : List Bool) (h1 : List Bytes)
+    (hL : extract H h (min c (2 ^ h)) bits hs = some (l, ml, b1, h1)) (hc : ¬ c > 2 ^ h) :
+    extract H (h + 1) c (true :: bits) hs = some (H (l ++ l), ml, b1, h1) := by
+  rw [extract, hL]; simp only [hc, if_false]
+
+theorem extract_succ_true_rnone (H : Bytes → Bytes) (h c : Nat) (bits : List Bool) (hs : List Bytes)
+    (l : Bytes) (ml : List Bytes) (b1 : List Bool) (h1 : List Bytes)
+    (hL : extract H h (min c (2 ^ h)) bits hs = some (l, ml, b1, h1)) (hc : c > 2 ^ h)
+    (hR : extract H h (c - 2 ^ h) b1 h1 = none) :
+    extract H (h + 1) c (true :: bits) hs = none := by
+  rw [extract, hL]; simp only [hc, if_true, hR]
+
+theorem extract_succ_true_rsome (H : Bytes → Bytes) (h c : Nat) (bits : List Bool) (hs : List Bytes)
+    (l : Bytes) (ml : List Bytes) (b1 : List Bool) (h1 : List Bytes) (r : Bytes) (mr : List Bytes) (b2 : List Bool) (h2 : List Bytes)
+    (hL : extract H h (min c (2 ^ h)) bits hs = some (l, ml, b1, h1)) (hc : c > 2 ^ h)
+    (hR : extract H h (c - 2 ^ h) b1 h1 = some (r, mr, b2, h2)) :
+    extract H (h + 1) c (true :: bits) hs = some (H (l ++ r), ml ++ mr, b2, h2) := by
+  rw [extract, hL]; simp only [hc, if_true, hR]
+
+theorem upd_self (f) (d i : Nat) (v : Bytes) : upd f d i v d i = some v := by simp [upd]
+
+theorem upd_untouched (f) (d i : Nat) (v : Bytes) : Untouched d i f (upd f d i v) := by
+  intro d' i' hn
+  unfold upd
+  rw [if_neg]
+  rintro ⟨h1, h2⟩; subst h1; subst h2; exact hn (InSub.self _ _)
+
+set_option maxHeartbeats 800000 in
+/-- The loop of populate_tree, started at a node whose subtree is still empty, performs exactly the
+    recursive BIP37 traversal of that subtree and returns to the parent (or fails where it fails). -/
+theorem sim (H : Bytes → Bytes) (n D : Nat) (hn : 0 < n) :
+    ∀ (h d i : Nat) (nodes : Nat → Nat → Option Bytes) (fb : List Bool) (hs pv : List Bytes),
+      d + h = D → i * 2 ^ h < n → (∀ d' i', InSub d i d' i' → nodes d' i' = none) → nodes 0 0 = none →
+      (∀ x m fb' hs', extract H h (min (n - i * 2 ^ h) (2 ^ h)) fb hs = some (x, m, fb', hs') →
+        ∃ k nodes', k + 3 * fb'.length ≤ 3 * fb.length ∧ nodes' d i = some x ∧ Untouched d i nodes nodes' ∧
+          ∀ fuel, runLoop H (fuel + k) (mk n D nodes d i fb hs pv)
+                = runLoop H fuel (mk n D nodes' (d - 1) (i / 2) fb' hs' (pv ++ m.map List.reverse))) ∧
+      (extract H h (min (n - i * 2 ^ h) (2 ^ h)) fb hs = none →
+        ∃ k, k ≤ 3 * fb.length + 1 ∧ ∀ fuel, runLoop H (fuel + k) (mk n D nodes d i fb hs pv) = none) := by
+  intro h
+  induction h with
+  | zero =>
+    intro d i nodes fb hs pv hd hi hsub hroot
+    have hdD : d = D := by omega
+    subst hdD
+    have hi' : i < n := by simpa using hi
+    have hrg := fun fb hs pv => root_get n d hn nodes d i fb hs pv hroot
+    constructor
+    · intro x m fb' hs' hex
+      match fb, hs with
+      | b :: fb0, x0 :: hs0 =>
+        rw [extract_zero_cons] at hex
+        simp only [Option.some.injEq, Prod.mk.injEq] at hex
+        obtain ⟨rfl, rfl, rfl, rfl⟩ := hex
+        refine ⟨1, upd nodes d i x0, by simp only [List.length_cons]; omega, upd_self _ _ _ _, upd_untouched _ _ _ _, ?_⟩
+        intro fuel
+        rw [runLoop_step H fuel _ _ (hrg _ _ _) (step_leaf H n d nodes i b fb0 x0 hs0 pv hi')]
+        cases b <;> simp
+      | [], _ => rw [extract_zero_none H _ _ _ (Or.inl rfl)] at hex; cases hex
+      | _ :: _, [] => rw [extract_zero_none H _ _ _ (Or.inr rfl)] at hex; cases hex
+    · intro hex
+      refine ⟨1, by omega, fun fuel => ?_⟩
+      apply runLoop_step_none H fuel _ (hrg _ _ _)
+      apply step_leaf_none
+      match fb, hs with
+      | b :: fb0, x0 :: hs0 => rw [extract_zero_cons] at hex; cases hex
+      | [], _ => left; rfl
+      | _ :: _, [] => right; rfl
+  | succ h ih =>
+    intro d i nodes fb hs pv hd hi hsub hroot
+    have hdD : d < D := by omega
+    have e1 : D - d = h + 1 := by omega
+    have e2 : D - (d + 1) = h := by omega
+    have hp : 0 < 2 ^ h := Nat.two_pow_pos _
+    have ep : 2 ^ (h + 1) = 2 * 2 ^ h := by rw [Nat.pow_succ]; omega
+    have hi0 : i * 2 ^ (D - d) < n := by rw [e1]; exact hi
+    have hleft : nodes (d + 1) (i * 2) = none :=
+      hsub _ _ (InSub.of_left (by rw [Nat.mul_comm]; exact InSub.self _ _))
+    have hrg : ∀ nodes' d' i' fb hs pv, nodes' 0 0 = none → (mk n D nodes' d' i' fb hs pv).get 0 0 = some none :=
+      fun nodes' d' i' fb hs pv hr => root_get n D hn nodes' d' i' fb hs pv hr
+    -- arithmetic on the leaf ranges
+    have hq : i * 2 ^ (h + 1) = 2 * (i * 2 ^ h) := by rw [ep]; rw [Nat.mul_left_comm]
+    have hql : i * 2 * 2 ^ h = 2 * (i * 2 ^ h) := by rw [Nat.mul_assoc, Nat.mul_left_comm]
+    have hqr : (i * 2 + 1) * 2 ^ h = 2 * (i * 2 ^ h) + 2 ^ h := by rw [Nat.add_mul, hql]; omega
+    have hil : i * 2 * 2 ^ h < n := by rw [hql]; rw [hq] at hi; exact hi
+    have cntL : min (min (n - i * 2 ^ (h + 1)) (2 ^ (h + 1))) (2 ^ h) = min (n - i * 2 * 2 ^ h) (2 ^ h) := by
+      rw [hq, hql, ep]; omega
+    have cntR : min (n - i * 2 ^ (h + 1)) (2 ^ (h + 1)) > 2 ^ h ↔ (i * 2 + 1) * 2 ^ h < n := by
+      rw [hq, hqr, ep]; omega
+    have cntR' : (i * 2 + 1) * 2 ^ h < n →
+        min (n - i * 2 ^ (h + 1)) (2 ^ (h + 1)) - 2 ^ h = min (n - (i * 2 + 1) * 2 ^ h) (2 ^ h) := by
+      rw [hq, hqr, ep]; omega
+    match fb with
+    | [] =>
+      constructor
+      · intro x m fb' hs' hex; simp [extract] at hex
+      · intro _
+        refine ⟨1, by omega, fun fuel => ?_⟩
+        exact runLoop_step_none H fuel _ (hrg _ _ _ _ _ _ hroot)
+          (step_inner_none H n D nodes d i [] hs pv hdD hi0 hleft (Or.inl rfl))
+    | false :: fb0 =>
+      match hs with
+      | [] =>
+        constructor
+        · intro x m fb' hs' hex; simp [extract] at hex
+        · intro _
+          refine ⟨1, by omega, fun fuel => ?_⟩
+          exact runLoop_step_none H fuel _ (hrg _ _ _ _ _ _ hroot)
+            (step_inner_none H n D nodes d i (false :: fb0) [] pv hdD hi0 hleft (Or.inr ⟨rfl, rfl⟩))
+      | x0 :: hs0 =>
+        constructor
+        · intro x m fb' hs' hex
+          simp only [extract, Option.some.injEq, Prod.mk.injEq] at hex
+          obtain ⟨rfl, rfl, rfl, rfl⟩ := hex
+          refine ⟨1, upd nodes d i x0, by simp only [List.length_cons]; omega, upd_self _ _ _ _, upd_untouched _ _ _ _, ?_⟩
+          intro fuel
+          rw [runLoop_step H fuel _ _ (hrg _ _ _ _ _ _ hroot) (step_inner_skip H n D nodes d i fb0 hs0 pv hdD hi0 hleft x0)]
+          simp
+        · intro hex; simp [extract] at hex
+    | true :: fb0 =>
+      -- descend to the left child
+      have hstep1 := step_inner_descend H n D nodes d i fb0 hs pv hdD hi0 hleft
+      have hsubL : ∀ d' i', InSub (d + 1) (i * 2) d' i' → nodes d' i' = none :=
+        fun d' i' hin => hsub d' i' (InSub.of_left (by rw [Nat.mul_comm] at hin; exact hin))
+      obtain ⟨ihLs, ihLn⟩ := ih (d + 1) (i * 2) nodes fb0 hs pv (by omega) hil hsubL hroot
+      cases hexL : extract H h (min (n - i * 2 * 2 ^ h) (2 ^ h)) fb0 hs with
+      | none =>
+        rw [extract_succ_true_none H h _ fb0 hs (by rw [cntL]; exact hexL)]
+        constructor
+        · intro x m fb' hs' hex; simp at hex
+        · intro _
+          obtain ⟨kl, hkb, hkl⟩ := ihLn hexL
+          refine ⟨kl + 1, by simp only [List.length_cons]; omega, fun fuel => ?_⟩
+          rw [show fuel + (kl + 1) = (fuel + kl) + 1 by omega, runLoop_step H _ _ _ (hrg _ _ _ _ _ _ hroot) hstep1]
+          exact hkl fuel
+      | some resL =>
+        obtain ⟨xl, ml, fb1, hs1⟩ := resL
+        obtain ⟨kl, nodes1, hbl, hn1, hu1, hrunL⟩ := ihLs xl ml fb1 hs1 hexL
+        have hroot1 : nodes1 0 0 = none := by
+          rw [hu1 0 0 (by intro hin; have := hin.1; omega)]; exact hroot
+        have hd1 : d + 1 - 1 = d := by omega
+        have hi1 : i * 2 / 2 = i := by omega
+        rw [hd1, hi1] at hrunL
+        have hexL' := hexL
+        rw [← cntL] at hexL'
+        by_cases hre : (i * 2 + 1) * 2 ^ h < n
+        · -- the right child exists
+          have hre0 : (i * 2 + 1) * 2 ^ (D - (d + 1)) < n := by rw [e2]; exact hre
+          have hnotL : ∀ d' i', InSub (d + 1) (i * 2 + 1) d' i' → ¬ InSub (d + 1) (i * 2) d' i' := by
+            intro d' i' hin hin'
+            rw [Nat.mul_comm] at hin hin'
+            exact InSub.left_right_disjoint hin' hin
+          have hsubR : ∀ d' i', InSub (d + 1) (i * 2 + 1) d' i' → nodes1 d' i' = none := by
+            intro d' i' hin
+            rw [hu1 d' i' (hnotL d' i' hin)]
+            exact hsub d' i' (InSub.of_right (by rw [Nat.mul_comm] at hin; exact hin))
+          have hright1 : nodes1 (d + 1) (i * 2 + 1) = none := hsubR _ _ (InSub.self _ _)
+          have hstep2 := step_inner_right H n D nodes1 d i fb1 hs1 (pv ++ ml.map List.reverse) hdD hi0 xl hn1 hre0 hright1
+          obtain ⟨ihRs, ihRn⟩ := ih (d + 1) (i * 2 + 1) nodes1 fb1 hs1 (pv ++ ml.map List.reverse) (by omega) hre hsubR hroot1
+          cases hexR : extract H h (min (n - (i * 2 + 1) * 2 ^ h) (2 ^ h)) fb1 hs1 with
+          | none =>
+            rw [extract_succ_true_rnone H h _ fb0 hs xl ml fb1 hs1 hexL' (cntR.mpr hre) (by rw [cntR' hre]; exact hexR)]
+            constructor
+            · intro x m fb' hs' hex; simp at hex
+            · intro _
+              obtain ⟨kr, hkb, hkr⟩ := ihRn hexR
+              refine ⟨kr + 1 + kl + 1, by simp only [List.length_cons]; omega, fun fuel => ?_⟩
+              rw [show fuel + (kr + 1 + kl + 1) = (fuel + kr + 1 + kl) + 1 by omega,
+                runLoop_step H _ _ _ (hrg _ _ _ _ _ _ hroot) hstep1, hrunL,
+                runLoop_step H _ _ _ (hrg _ _ _ _ _ _ hroot1) hstep2]
+              exact hkr fuel
+          | some resR =>
+            obtain ⟨xr, mr, fb2, hs2⟩ := resR
+            obtain ⟨kr, nodes2, hbr, hn2, hu2, hrunR⟩ := ihRs xr mr fb2 hs2 hexR
+            have hroot2 : nodes2 0 0 = none := by
+              rw [hu2 0 0 (by intro hin; have := hin.1; omega)]; exact hroot1
+            have hd2 : d + 1 - 1 = d := by omega
+            have hi2 : (i * 2 + 1) / 2 = i := by omega
+            rw [hd2, hi2] at hrunR
+            have hleft2 : nodes2 (d + 1) (i * 2) = some xl := by
+              rw [hu2 _ _ (by intro hin; exact hnotL _ _ hin (InSub.self _ _))]; exact hn1
+            have hstep3 := step_inner_combine H n D nodes2 d i fb2 hs2 (pv ++ ml.map List.reverse ++ mr.map List.reverse)
+              hdD hi0 xl xr hleft2 hre0 hn2
+            rw [extract_succ_true_rsome H h _ fb0 hs xl ml fb1 hs1 xr mr fb2 hs2 hexL' (cntR.mpr hre) (by rw [cntR' hre]; exact hexR)]
+            constructor
+            · intro x m fb' hs' hex
+              simp only [Option.some.injEq, Prod.mk.injEq] at hex
+              obtain ⟨rfl, rfl, rfl, rfl⟩ := hex
+              refine ⟨1 + kr + 1 + kl + 1, upd nodes2 d i (H (xl ++ xr)), ?_, upd_self _ _ _ _, ?_, ?_⟩
+              · simp only [List.length_cons]; omega
+              · intro d' i' hnin
+                rw [upd_untouched nodes2 d i _ d' i' hnin,
+                  hu2 d' i' (fun hin => hnin (InSub.of_right (by rw [Nat.mul_comm] at hin; exact hin))),
+                  hu1 d' i' (fun hin => hnin (InSub.of_left (by rw [Nat.mul_comm] at hin; exact hin)))]
+              · intro fuel
+                rw [show fuel + (1 + kr + 1 + kl + 1) = (fuel + 1 + kr + 1 + kl) + 1 by omega,
+                  runLoop_step H _ _ _ (hrg _ _ _ _ _ _ hroot) hstep1, hrunL,
+                  runLoop_step H _ _ _ (hrg _ _ _ _ _ _ hroot1) hstep2, hrunR,
+                  runLoop_step H _ _ _ (hrg _ _ _ _ _ _ hroot2) hstep3]
+                simp [List.append_assoc]
+            · intro hex; simp at hex
+        · -- no right child
+          have hcn : ¬ min (n - i * 2 ^ (h + 1)) (2 ^ (h + 1)) > 2 ^ h := fun hc => hre (cntR.mp hc)
+          rw [extract_succ_true_single H h _ fb0 hs xl ml fb1 hs1 hexL' hcn]
+          have hre0 : ¬ (i * 2 + 1) * 2 ^ (D - (d + 1)) < n := by rw [e2]; exact hre
+          have hstep2 := step_inner_single H n D nodes1 d i fb1 hs1 (pv ++ ml.map List.reverse) hdD hi0 xl hn1 hre0
+          constructor
+          · intro x m fb' hs' hex
+            simp only [Option.some.injEq, Prod.mk.injEq] at hex
+            obtain ⟨rfl, rfl, rfl, rfl⟩ := hex
+            refine ⟨1 + kl + 1, upd nodes1 d i (H (xl ++ xl)), ?_, upd_self _ _ _ _, ?_, ?_⟩
+            · simp only [List.length_cons]; omega
+            · intro d' i' hnin
+              rw [upd_untouched nodes1 d i _ d' i' hnin,
+                hu1 d' i' (fun hin => hnin (InSub.of_left (by rw [Nat.mul_comm] at hin; exact hin)))]
+            · intro fuel
+              rw [show fuel + (1 + kl + 1) = (fuel + 1 + kl) + 1 by omega,
+                runLoop_step H _ _ _ (hrg _ _ _ _ _ _ hroot) hstep1, hrunL,
+                runLoop_step H _ _ _ (hrg _ _ _ _ _ _ hroot1) hstep2]
+          · intro hex; simp at hex
+
+
+/-! ## populate_tree = the recursive traversal -/
+
+theorem runLoop_done (H : Bytes → Bytes) (fuel : Nat) (s : TreeSt) (r : Bytes) (h : s.get 0 0 = some (some r)) :
+    runLoop H (fuel + 1) s = some (some (r, s)) := by
+  simp only [runLoop, h]
+
+/-- MerkleTree(total).populate_tree(flag_bits, hashes) is TraverseAndExtract from the root followed by the two
+    leftover checks, whenever the tree depth is `D` with `n ≤ 2^D` -/
+theorem populate_eq_extract (H : Bytes → Bytes) (n : Nat) (hn : 0 < n) (hD : n ≤ 2 ^ maxDepth n)
+    (fl : List Bool) (hs : List Bytes) :
+    populate H n fl hs =
+      match extract H (maxDepth n) n fl hs with
+      | none => .error
+      | some (x, m, fb', hs') =>
+        if hs'.length ≠ 0 then .error else if fb'.any id then .error else .done x (m.map List.reverse) := by
+  have hsim := sim H n (maxDepth n) hn (maxDepth n) 0 0 (fun _ _ => none) fl hs [] (by omega) (by simpa using hn)
+    (fun _ _ _ => rfl) rfl
+  have hc : min (n - 0 * 2 ^ maxDepth n) (2 ^ maxDepth n) = n := by simp; omega
+  rw [hc] at hsim
+  obtain ⟨hS, hN⟩ := hsim
+  unfold populate
+  cases hex : extract H (maxDepth n) n fl hs with
+  | none =>
+    obtain ⟨k, hk, hrun⟩ := hN hex
+    have := hrun (3 * fl.length + 4 - k)
+    rw [show 3 * fl.length + 4 - k + k = 3 * fl.length + 4 by omega] at this
+    simp only [mk] at this
+    simp only [this]
+  | some res =>
+    obtain ⟨x, m, fb', hs'⟩ := res
+    obtain ⟨k, nodes', hk, hx, _, hrun⟩ := hS x m fb' hs' hex
+    have := hrun ((3 * fl.length + 3 - k) + 1)
+    rw [show 3 * fl.length + 3 - k + 1 + k = 3 * fl.length + 4 by omega] at this
+    have hdone := runLoop_done H (3 * fl.length + 3 - k)
+      (mk n (maxDepth n) nodes' (0 - 1) (0 / 2) fb' hs' ([] ++ List.map List.reverse m)) x (by
+        rw [get_eq n (maxDepth n) nodes' _ _ fb' hs' _ 0 0 (Nat.zero_le _) (by simpa using hn)]
+        simp only [hx])
+    rw [hdone] at this
+    simp only [mk] at this
+    simp only [this, List.nil_append]
+
+/-! ## BIP37 completeness: extract ∘ build -/
+
+def segMatched (seg : List (Bytes × Bool)) : List Bytes := (seg.filter (·.2)).map (·.1)
+
+theorem segMatched_take_drop (seg : List (Bytes × Bool)) (k : Nat) :
+    segMatched (seg.take k) ++ segMatched (seg.drop k) = segMatched seg := by
+  unfold segMatched
+  rw [← List.map_append, ← List.filter_append, List.take_append_drop]
+
+theorem segMatched_nil_of_not_any (seg : List (Bytes × Bool)) (h : seg.any (·.2) = false) : segMatched seg = [] := by
+  unfold segMatched
+  rw [List.filter_eq_nil_iff.mpr]
+  · rfl
+  · intro a ha
+    have := List.any_eq_false.mp h a ha
+    simpa using this
+
+theorem extract_succ_false (H : Bytes → Bytes) (h c : Nat) (bits : List Bool) (x : Bytes) (hs : List Bytes) :
+    extract H (h + 1) c (false :: bits) (x :: hs) = some (x, [], bits, hs) := by
+  simp [extract]
+
+theorem extract_build (H : Bytes → Bytes) : ∀ (h : Nat) (seg : List (Bytes × Bool)) (rf : List Bool) (rh : List Bytes),
+    0 < seg.length → seg.length ≤ 2 ^ h →
+    extract H h seg.length ((build H h seg).1 ++ rf) ((build H h seg).2 ++ rh)
+      = some (calcHash H h (seg.map (·.1)), segMatched seg, rf, rh)
+  | 0, seg, rf, rh, h0, h1 => by
+    match seg, h0, h1 with
+    | [(x, b)], _, _ =>
+      simp only [build, List.any_cons, List.any_nil, Bool.or_false, List.map_cons, List.map_nil, calcHash,
+        List.cons_append, List.nil_append, extract_zero_cons, segMatched]
+      cases b <;> simp
+    | _ :: _ :: _, _, h1 => simp at h1
+  | h + 1, seg, rf, rh, h0, h1 => by
+    have hp : 0 < 2 ^ h := Nat.two_pow_pos _
+    have ep : 2 ^ (h + 1) = 2 * 2 ^ h := by rw [Nat.pow_succ]; omega
+    by_cases hany : seg.any (·.2) = true
+    · have ihL := extract_build H h (seg.take (2 ^ h))
+      have lenL : (seg.take (2 ^ h)).length = min seg.length (2 ^ h) := by
+        simp only [List.length_take]; omega
+      by_cases hc : seg.length > 2 ^ h
+      · have hb : build H (h + 1) seg = (true :: ((build H h (seg.take (2 ^ h))).1 ++ (build H h (seg.drop (2 ^ h))).1),
+            (build H h (seg.take (2 ^ h))).2 ++ (build H h (seg.drop (2 ^ h))).2) := by
+          rw [build]; simp only [hany, if_true, hc]
+        have lenR : (seg.drop (2 ^ h)).length = seg.length - 2 ^ h := by simp
+        have ihR := extract_build H h (seg.drop (2 ^ h)) rf rh (by rw [lenR]; omega) (by rw [lenR]; omega)
+        have ihL' := ihL ((build H h (seg.drop (2 ^ h))).1 ++ rf) ((build H h (seg.drop (2 ^ h))).2 ++ rh)
+          (by rw [lenL]; omega) (by rw [lenL]; omega)
+        rw [lenL] at ihL'
+        rw [lenR] at ihR
+        rw [hb]
+        simp only [List.cons_append, List.append_assoc]
+        rw [extract_succ_true_rsome H h _ _ _ _ _ _ _ _ _ _ _ ihL' hc ihR]
+        rw [calcHash_succ, List.length_map, if_pos hc, List.map_take, List.map_drop, segMatched_take_drop]
+      · have hb : build H (h + 1) seg = (true :: (build H h (seg.take (2 ^ h))).1, (build H h (seg.take (2 ^ h))).2) := by
+          rw [build]; simp only [hany, if_true, hc, if_false]
+        have ihL' := ihL rf rh (by rw [lenL]; omega) (by rw [lenL]; omega)
+        rw [lenL] at ihL'
+        rw [hb]
+        simp only [List.cons_append]
+        rw [extract_succ_true_single H h _ _ _ _ _ _ _ ihL' hc]
+        rw [calcHash_succ, List.length_map, if_neg hc, List.map_take]
+        have : seg.take (2 ^ h) = seg := List.take_of_length_le (by omega)
+        rw [this]
+    · have hany' : seg.any (·.2) = false := by simpa using hany
+      have hb : build H (h + 1) seg = ([false], [calcHash H (h + 1) (seg.map (·.1))]) := by
+        rw [build]; simp only [hany', Bool.false_eq_true, if_false]
+      rw [hb]
+      simp only [List.cons_append, List.nil_append, extract_succ_false, segMatched_nil_of_not_any seg hany']
+
+/-! ## BIP37 soundness with collision extraction -/
+
+/-- two different byte strings with the same hash -/
+def Collision (H : Bytes → Bytes) : Prop := ∃ a b : Bytes, a ≠ b ∧ H a = H b
+
+theorem calcHash_length (H : Bytes → Bytes) (hH : ∀ b, (H b).length = 32) :
+    ∀ (h : Nat) (seg : List Bytes), 0 < seg.length → (∀ y ∈ seg, y.length = 32) → (calcHash H h seg).length = 32
+  | 0, seg, h0, hs => by
+    match seg, h0 with
+    | a :: r, _ => simp only [calcHash]; exact hs a (by simp)
+  | h + 1, seg, _, _ => by rw [calcHash_succ]; exact hH _
+
+theorem extract_length (H : Bytes → Bytes) (hH : ∀ b, (H b).length = 32) :
+    ∀ (h c : Nat) (fb : List Bool) (hs : List Bytes) (x : Bytes) (m : List Bytes) (fb' : List Bool) (hs' : List Bytes),
+      (∀ y ∈ hs, y.length = 32) → extract H h c fb hs = some (x, m, fb', hs') →
+      x.length = 32 ∧ (∀ y ∈ hs', y.length = 32)
+  | 0, c, fb, hs, x, m, fb', hs', hl, hex => by
+    match fb, hs with
+    | b :: fb0, x0 :: hs0 =>
+      rw [extract_zero_cons] at hex
+      simp only [Option.some.injEq, Prod.mk.injEq] at hex
+      obtain ⟨rfl, _, _, rfl⟩ := hex
+      exact ⟨hl _ (by simp), fun y hy => hl y (by simp [hy])⟩
+    | [], _ => rw [extract_zero_none H _ _ _ (Or.inl rfl)] at hex; cases hex
+    | _ :: _, [] => rw [extract_zero_none H _ _ _ (Or.inr rfl)] at hex; cases hex
+  | h + 1, c, fb, hs, x, m, fb', hs', hl, hex => by
+    match fb, hs with
+    | [], _ => simp [extract] at hex
+    | false :: _, [] => simp [extract] at hex
+    | false :: fb0, x0 :: hs0 =>
+      rw [extract_succ_false] at hex
+      simp only [Option.some.injEq, Prod.mk.injEq] at hex
+      obtain ⟨rfl, _, _, rfl⟩ := hex
+      exact ⟨hl _ (by simp), fun y hy => hl y (by simp [hy])⟩
+    | true :: fb0, hs =>
+      cases hL : extract H h (min c (2 ^ h)) fb0 hs with
+      | none => rw [extract_succ_true_none H h c fb0 hs hL] at hex; cases hex
+      | some rL =>
+        obtain ⟨xl, ml, fb1, hs1⟩ := rL
+        have ihL := extract_length H hH h _ fb0 hs xl ml fb1 hs1 hl hL
+        by_cases hc : c > 2 ^ h
+        · cases hR : extract H h (c - 2 ^ h) fb1 hs1 with
+          | none => rw [extract_succ_true_rnone H h c fb0 hs _ _ _ _ hL hc hR] at hex; cases hex
+          | some rR =>
+            obtain ⟨xr, mr, fb2, hs2⟩ := rR
+            have ihR := extract_length H hH h _ fb1 hs1 xr mr fb2 hs2 ihL.2 hR
+            rw [extract_succ_true_rsome H h c fb0 hs _ _ _ _ _ _ _ _ hL hc hR] at hex
+            simp only [Option.some.injEq, Prod.mk.injEq] at hex
+            obtain ⟨rfl, _, _, rfl⟩ := hex
+            exact ⟨hH _, ihR.2⟩
+        · rw [extract_succ_true_single H h c fb0 hs _ _ _ _ hL hc] at hex
+          simp only [Option.some.injEq, Prod.mk.injEq] at hex
+          obtain ⟨rfl, _, _, rfl⟩ := hex
+          exact ⟨hH _, ihL.2⟩
+
+theorem extract_sound (H : Bytes → Bytes) (hH : ∀ b, (H b).length = 32) :
+    ∀ (h : Nat) (seg : List Bytes) (fb : List Bool) (hs : List Bytes) (x : Bytes) (m : List Bytes) (fb' : List Bool) (hs' : List Bytes),
+      0 < seg.length → seg.length ≤ 2 ^ h → (∀ y ∈ seg, y.length = 32) → (∀ y ∈ hs, y.length = 32) →
+      extract H h seg.length fb hs = some (x, m, fb', hs') → x = calcHash H h seg →
+      (∀ t ∈ m, t ∈ seg) ∨ Collision H
+  | 0, seg, fb, hs, x, m, fb', hs', h0, h1, hseg, hl, hex, hx => by
+    left
+    match seg, h0, h1 with
+    | [a], _, _ =>
+      match fb, hs with
+      | b :: fb0, x0 :: hs0 =>
+        rw [extract_zero_cons] at hex
+        simp only [Option.some.injEq, Prod.mk.injEq] at hex
+        obtain ⟨rfl, rfl, _, _⟩ := hex
+        simp only [calcHash] at hx
+        subst hx
+        intro t ht
+        cases b <;> simp_all
+      | [], _ => rw [extract_zero_none H _ _ _ (Or.inl rfl)] at hex; cases hex
+      | _ :: _, [] => rw [extract_zero_none H _ _ _ (Or.inr rfl)] at hex; cases hex
+    | _ :: _ :: _, _, h1 => simp at h1
+  | h + 1, seg, fb, hs, x, m, fb', hs', h0, h1, hseg, hl, hex, hx => by
+    have hp : 0 < 2 ^ h := Nat.two_pow_pos _
+    have ep : 2 ^ (h + 1) = 2 * 2 ^ h := by rw [Nat.pow_succ]; omega
+    match fb, hs with
+    | [], _ => simp [extract] at hex
+    | false :: _, [] => simp [extract] at hex
+    | false :: fb0, x0 :: hs0 =>
+      rw [extract_succ_false] at hex
+      simp only [Option.some.injEq, Prod.mk.injEq] at hex
+      obtain ⟨_, rfl, _, _⟩ := hex
+      left; intro t ht; cases ht
+    | true :: fb0, hs =>
+      have lenL : (seg.take (2 ^ h)).length = min seg.length (2 ^ h) := by
+        simp only [List.length_take]; omega
+      have hsegL : ∀ y ∈ seg.take (2 ^ h), y.length = 32 := fun y hy => hseg y (List.mem_of_mem_take hy)
+      have hsegR : ∀ y ∈ seg.drop (2 ^ h), y.length = 32 := fun y hy => hseg y (List.mem_of_mem_drop hy)
+      cases hL : extract H h (min seg.length (2 ^ h)) fb0 hs with
+      | none => rw [extract_succ_true_none H h _ fb0 hs hL] at hex; cases hex
+      | some rL =>
+        obtain ⟨xl, ml, fb1, hs1⟩ := rL
+        have lenxl := extract_length H hH h _ fb0 hs xl ml fb1 hs1 hl hL
+        have lencl := calcHash_length H hH h (seg.take (2 ^ h)) (by rw [lenL]; omega) hsegL
+        have hL' := hL
+        rw [← lenL] at hL'
+        have ihL := extract_sound H hH h (seg.take (2 ^ h)) fb0 hs xl ml fb1 hs1 (by rw [lenL]; omega) (by rw [lenL]; omega)
+          hsegL hl hL'
+        by_cases hc : seg.length > 2 ^ h
+        · have lenR : (seg.drop (2 ^ h)).length = seg.length - 2 ^ h := by simp
+          cases hR : extract H h (seg.length - 2 ^ h) fb1 hs1 with
+          | none => rw [extract_succ_true_rnone H h _ fb0 hs _ _ _ _ hL hc hR] at hex; cases hex
+          | some rR =>
+            obtain ⟨xr, mr, fb2, hs2⟩ := rR
+            rw [extract_succ_true_rsome H h _ fb0 hs _ _ _ _ _ _ _ _ hL hc hR] at hex
+            simp only [Option.some.injEq, Prod.mk.injEq] at hex
+            obtain ⟨rfl, rfl, _, _⟩ := hex
+            rw [calcHash_succ, if_pos hc] at hx
+            by_cases heq : xl ++ xr = calcHash H h (seg.take (2 ^ h)) ++ calcHash H h (seg.drop (2 ^ h))
+            · have hinj := List.append_inj heq (by rw [lenxl.1, lencl])
+              have hR' := hR
+              rw [← lenR] at hR'
+              have ihR := extract_sound H hH h (seg.drop (2 ^ h)) fb1 hs1 xr mr fb2 hs2 (by rw [lenR]; omega) (by rw [lenR]; omega)
+                hsegR lenxl.2 hR' hinj.2
+              rcases ihL hinj.1 with hl1 | hcol
+              · rcases ihR with hr1 | hcol
+                · left
+                  intro t ht
+                  rcases List.mem_append.mp ht with ht | ht
+                  · exact List.mem_of_mem_take (hl1 t ht)
+                  · exact List.mem_of_mem_drop (hr1 t ht)
+                · right; exact hcol
+              · right; exact hcol
+            · right; exact ⟨_, _, heq, hx⟩
+        · rw [extract_succ_true_single H h _ fb0 hs _ _ _ _ hL hc] at hex
+          simp only [Option.some.injEq, Prod.mk.injEq] at hex
+          obtain ⟨rfl, rfl, _, _⟩ := hex
+          rw [calcHash_succ, if_neg hc] at hx
+          by_cases heq : xl ++ xl = calcHash H h (seg.take (2 ^ h)) ++ calcHash H h (seg.take (2 ^ h))
+          · have hinj := List.append_inj heq (by rw [lenxl.1, lencl])
+            rcases ihL hinj.1 with hl1 | hcol
+            · left; intro t ht; exact List.mem_of_mem_take (hl1 t ht)
+            · right; exact hcol
+          · right; exact ⟨_, _, heq, hx⟩
+
+/-! ## flag bytes <-> flag bits -/
+
+theorem byteBitsLE_bitsLEToNat : ∀ c : List Bool, byteBitsLE c.length (bitsLEToNat c) = c
+  | [] => rfl
+  | b :: r => by
+    simp only [List.length_cons, byteBitsLE, bitsLEToNat]
+    have ih := byteBitsLE_bitsLEToNat r
+    cases b
+    · simp only [Bool.false_eq_true, if_false, Nat.zero_add, Nat.mul_mod_right, Nat.zero_ne_one, decide_false,
+        Nat.mul_div_cancel_left _ (show 0 < 2 by omega), ih]
+    · have h1 : (1 + 2 * bitsLEToNat r) % 2 = 1 := by omega
+      have h2 : (1 + 2 * bitsLEToNat r) / 2 = bitsLEToNat r := by omega
+      simp only [if_true, h1, h2, decide_true, ih]
+
+theorem bitsLEToNat_lt : ∀ c : List Bool, bitsLEToNat c < 2 ^ c.length
+  | [] => by simp [bitsLEToNat]
+  | b :: r => by
+    have := bitsLEToNat_lt r
+    simp only [bitsLEToNat, List.length_cons, Nat.pow_succ]
+    cases b <;> simp <;> omega
+
+theorem chunk8_flatMap : ∀ (k : Nat) (bits : List Bool), bits.length = 8 * k →
+    (chunk8 k bits).flatMap (fun c => byteBitsLE 8 (UInt8.ofNat (bitsLEToNat c)).toNat) = bits
+  | 0, bits, h => by
+    have : bits = [] := List.eq_nil_of_length_eq_zero (by omega)
+    subst this; rfl
+  | k + 1, bits, h => by
+    simp only [chunk8, List.flatMap_cons]
+    have hl : (bits.take 8).length = 8 := by simp only [List.length_take]; omega
+    have hlt := bitsLEToNat_lt (bits.take 8)
+    rw [hl] at hlt
+    have hv : (UInt8.ofNat (bitsLEToNat (bits.take 8))).toNat = bitsLEToNat (bits.take 8) := by
+      rw [u8_ofNat_toNat]; omega
+    have h8 := byteBitsLE_bitsLEToNat (bits.take 8)
+    rw [hl] at h8
+    rw [hv, h8, chunk8_flatMap k (bits.drop 8) (by simp only [List.length_drop]; omega), List.take_append_drop]
+
+/-- bytes_to_bit_field inverts bit_field_to_bytes -/
+theorem bytesToBitField_bitFieldToBytes (bits : List Bool) (bs : Bytes) (h : bitFieldToBytes bits = some bs) :
+    bytesToBitField bs = bits := by
+  unfold bitFieldToBytes at h
+  split at h
+  · cases h
+  · next hm =>
+    simp only [ne_eq, Decidable.not_not] at hm
+    cases h
+    unfold bytesToBitField
+    rw [List.flatMap_map]
+    exact chunk8_flatMap _ bits (by omega)
+
+theorem padBits_length (bits : List Bool) : (padBits bits).length % 8 = 0 := by
+  unfold padBits; simp only [List.length_append, List.length_replicate]; omega
+
+theorem bitFieldToBytes_padBits_isSome (bits : List Bool) : ∃ bs, bitFieldToBytes (padBits bits) = some bs := by
+  unfold bitFieldToBytes
+  rw [if_neg (by simp [padBits_length])]
+  exact ⟨_, rfl⟩
+
+/-! ## top level: populate_tree / is_valid against the specification -/
+
+theorem populate_zero (H : Bytes → Bytes) (fl : List Bool) (hs : List Bytes) : populate H 0 fl hs = .error := by
+  unfold populate
+  have : ∀ D, ¬ 0 < levelSize 0 D 0 := by
+    intro D
+    unfold levelSize
+    have hp : 0 < 2 ^ (D - 0) := Nat.two_pow_pos _
+    rw [Nat.zero_add, Nat.div_eq_of_lt (by omega)]; omega
+  simp only [runLoop, TreeSt.get, this, and_false, if_false]
+
+/-- populate_tree is BIP37's "parsing a partial merkle tree object" (for every count, every flag list, every
+    hash list), provided the depth the code computes is ⌈log₂ total⌉ -/
+theorem populate_eq_extractProof (H : Bytes → Bytes) (n : Nat) (hD : 0 < n → IsCeilLog2 n (maxDepth n))
+    (fl : List Bool) (hs : List Bytes) :
+    populate H n fl hs =
+      match extractProof H n fl hs with
+      | none => .error
+      | some (r, m) => .done r (m.map List.reverse) := by
+  by_cases hn : n = 0
+  · subst hn; rw [populate_zero]; simp [extractProof]
+  · have hn' : 0 < n := by omega
+    have hd := hD hn'
+    have hce : ceilLog2 n = maxDepth n := (ceilLog2_spec n).unique hd
+    rw [populate_eq_extract H n hn' hd.1]
+    unfold extractProof
+    rw [if_neg hn, hce]
+    cases hex : extract H (maxDepth n) n fl hs with
+    | none => rfl
+    | some res =>
+      obtain ⟨x, m, fb', hs'⟩ := res
+      cases hs' with
+      | nil =>
+        simp only [List.length_nil, ne_eq, not_true_eq_false, if_false]
+        cases hany : fb'.any id <;> simp
+      | cons a r => simp
+
+theorem any_replicate_false (k : Nat) : (List.replicate k false).any id = false := by
+  induction k with
+  | zero => rfl
+  | succ k ih => simp [List.replicate_succ, ih]
+
+theorem segMatched_zip (ids : List Bytes) (matched : List Bool) : segMatched (ids.zip matched) = matchedIds ids matched := rfl
+
+/-- completeness at the level of populate_tree (leaves in internal byte order) -/
+theorem populate_buildProof (H : Bytes → Bytes) (ids : List Bytes) (matched : List Bool) (hne : ids ≠ [])
+    (hm : matched.length = ids.length) (hD : IsCeilLog2 ids.length (maxDepth ids.length)) :
+    populate H (buildProof H ids matched).1 (buildProof H ids matched).2.2 (buildProof H ids matched).2.1
+      = .done (treeRoot H ids) ((matchedIds ids matched).map List.reverse) := by
+  have h0 : 0 < ids.length := List.length_pos_iff.mpr hne
+  have hce : ceilLog2 ids.length = maxDepth ids.length := (ceilLog2_spec _).unique hD
+  have hzl : (ids.zip matched).length = ids.length := by simp [hm]
+  have hzm : (ids.zip matched).map (·.1) = ids := by
+    rw [List.map_fst_zip]; omega
+  simp only [buildProof]
+  rw [populate_eq_extract H ids.length h0 hD.1, ← hce]
+  unfold padBits
+  have hb := extract_build H (ceilLog2 ids.length) (ids.zip matched)
+    (List.replicate ((8 - (build H (ceilLog2 ids.length) (ids.zip matched)).1.length % 8) % 8) false) []
+    (by rw [hzl]; exact h0) (by rw [hzl, hce]; exact hD.1)
+  rw [hzl, List.append_nil, hzm] at hb
+  rw [hb]
+  simp only [List.length_nil, ne_eq, not_true_eq_false, if_false, any_replicate_false, Bool.false_eq_true, segMatched_zip]
+  rfl
+
+theorem matchedIds_map_reverse (ids : List Bytes) (matched : List Bool) :
+    (matchedIds (ids.map List.reverse) matched).map List.reverse = matchedIds ids matched := by
+  unfold matchedIds
+  induction ids generalizing matched with
+  | nil => simp
+  | cons a r ih =>
+    cases matched with
+    | nil => simp
+    | cons b bs =>
+      simp only [List.map_cons, List.zip_cons_cons, List.filter_cons]
+      cases b
+      · simpa using ih bs
+      · simp only [if_true, List.map_cons, List.reverse_reverse, List.cons.injEq, true_and]
+        simpa using ih bs
+
+/-- completeness at the level of MerkleBlock.is_valid / proved_txs (ids, hashes and root in object byte order) -/
+theorem isValid_buildProof (H : Bytes → Bytes) (txids : List Bytes) (matched : List Bool) (hne : txids ≠ [])
+    (hm : matched.length = txids.length) (hD : IsCeilLog2 txids.length (maxDepth txids.length)) :
+    ∃ flags, bitFieldToBytes (buildProof H (txids.map List.reverse) matched).2.2 = some flags ∧
+      isValid H (treeRoot H (txids.map List.reverse)).reverse (buildProof H (txids.map List.reverse) matched).1
+        ((buildProof H (txids.map List.reverse) matched).2.1.map List.reverse) flags
+        = .ok (some (true, matchedIds txids matched)) := by
+  have hb : (buildProof H (txids.map List.reverse) matched).2.2
+      = padBits (build H (ceilLog2 (txids.map List.reverse).length) ((txids.map List.reverse).zip matched)).1 := rfl
+  obtain ⟨flags, hfl⟩ := bitFieldToBytes_padBits_isSome (build H (ceilLog2 (txids.map List.reverse).length) ((txids.map List.reverse).zip matched)).1
+  refine ⟨flags, by rw [hb]; exact hfl, ?_⟩
+  unfold isValid
+  have hbits := bytesToBitField_bitFieldToBytes _ _ hfl
+  rw [hbits, ← hb]
+  have hrev : ((buildProof H (txids.map List.reverse) matched).2.1.map List.reverse).map List.reverse
+      = (buildProof H (txids.map List.reverse) matched).2.1 := by
+    generalize (buildProof H (txids.map List.reverse) matched).2.1 = l
+    induction l with
+    | nil => rfl
+    | cons a r ih => simp only [List.map_cons, List.reverse_reverse, ih]
+  rw [hrev]
+  have hne' : txids.map List.reverse ≠ [] := by simpa using hne
+  have hlen : (txids.map List.reverse).length = txids.length := by simp
+  have := populate_buildProof H (txids.map List.reverse) matched hne' (by rw [hlen]; exact hm) (by rw [hlen]; exact hD)
+  rw [this]
+  simp only [matchedIds_map_reverse, decide_true]
+
+/-- soundness at the level of populate_tree with the true transaction count -/
+theorem populate_sound (H : Bytes → Bytes) (hH : ∀ b, (H b).length = 32) (ids : List Bytes) (hne : ids ≠ [])
+    (hD : IsCeilLog2 ids.length (maxDepth ids.length))
+    (hids : ∀ y ∈ ids, y.length = 32) (fl : List Bool) (hs : List Bytes) (hhs : ∀ y ∈ hs, y.length = 32)
+    (r : Bytes) (proved : List Bytes) (h : populate H ids.length fl hs = .done r proved) (hr : r = treeRoot H ids) :
+    (∀ t ∈ proved, t.reverse ∈ ids) ∨ Collision H := by
+  have h0 : 0 < ids.length := List.length_pos_iff.mpr hne
+  have hce : ceilLog2 ids.length = maxDepth ids.length := (ceilLog2_spec _).unique hD
+  rw [populate_eq_extract H ids.length h0 hD.1] at h
+  cases hex : extract H (maxDepth ids.length) ids.length fl hs with
+  | none => rw [hex] at h; cases h
+  | some res =>
+    obtain ⟨x, m, fb', hs'⟩ := res
+    rw [hex] at h
+    simp only at h
+    split at h
+    · cases h
+    · split at h
+      · cases h
+      · simp only [PopOut.done.injEq] at h
+        obtain ⟨rfl, rfl⟩ := h
+        have := extract_sound H hH (maxDepth ids.length) ids fl hs x m fb' hs' h0 hD.1 hids hhs hex
+          (by rw [hr, treeRoot, hce])
+        rcases this with hm | hc
+        · left
+          intro t ht
+          obtain ⟨u, hu, rfl⟩ := List.mem_map.mp ht
+          simpa using hm u hu
+        · right; exact hc
+
+/-- F17b: a forged transaction count.  For a block of four transactions a, b, c, d the proof
+    (total = 2, flags 1 1 1, hashes H(a‖b), H(c‖d)) validates against the block's Merkle root and "proves" the two
+    inner nodes — for every hash function. -/
+theorem forged_total (H : Bytes → Bytes) (a b c d : Bytes) (hD : maxDepth 2 = 1) :
+    populate H 2 [true, true, true] [H (a ++ b), H (c ++ d)]
+      = .done (calcHash H 2 [a, b, c, d]) [(H (a ++ b)).reverse, (H (c ++ d)).reverse] := by
+  rw [populate_eq_extract H 2 (by omega) (by rw [hD]; decide), hD]
+  simp [extract, calcHash]
+
+/-! ## altering a hash: the computed root determines the consumed hashes, or a collision is exhibited -/
+
+theorem extract_root_determines (H : Bytes → Bytes) (hH : ∀ b, (H b).length = 32) :
+    ∀ (h c : Nat) (fb : List Bool) (hs1 hs2 : List Bytes) (x : Bytes) (m1 m2 : List Bytes) (fb1 fb2 : List Bool) (r1 r2 : List Bytes),
+      (∀ y ∈ hs1, y.length = 32) → (∀ y ∈ hs2, y.length = 32) →
+      extract H h c fb hs1 = some (x, m1, fb1, r1) → extract H h c fb hs2 = some (x, m2, fb2, r2) →
+      (∃ p, hs1 = p ++ r1 ∧ hs2 = p ++ r2 ∧ fb1 = fb2 ∧ m1 = m2) ∨ Collision H
+  | 0, c, fb, hs1, hs2, x, m1, m2, fb1, fb2, r1, r2, hl1, hl2, he1, he2 => by
+    left
+    match fb, hs1, hs2 with
+    | b :: fb0, x1 :: t1, x2 :: t2 =>
+      rw [extract_zero_cons] at he1 he2
+      simp only [Option.some.injEq, Prod.mk.injEq] at he1 he2
+      obtain ⟨rfl, rfl, rfl, rfl⟩ := he1
+      obtain ⟨rfl, rfl, rfl, rfl⟩ := he2
+      exact ⟨[_], rfl, rfl, rfl, rfl⟩
+    | [], _, _ => rw [extract_zero_none H _ _ _ (Or.inl rfl)] at he1; cases he1
+    | _ :: _, [], _ => rw [extract_zero_none H _ _ _ (Or.inr rfl)] at he1; cases he1
+    | _ :: _, _ :: _, [] => rw [extract_zero_none H _ _ _ (Or.inr rfl)] at he2; cases he2
+  | h + 1, c, fb, hs1, hs2, x, m1, m2, fb1, fb2, r1, r2, hl1, hl2, he1, he2 => by
+    match fb with
+    | [] => simp [extract] at he1
+    | false :: fb0 =>
+      match hs1, hs2 with
+      | [], _ => simp [extract] at he1
+      | _ :: _, [] => simp [extract] at he2
+      | x1 :: t1, x2 :: t2 =>
+        rw [extract_succ_false] at he1 he2
+        simp only [Option.some.injEq, Prod.mk.injEq] at he1 he2
+        obtain ⟨rfl, rfl, rfl, rfl⟩ := he1
+        obtain ⟨rfl, rfl, rfl, rfl⟩ := he2
+        left; exact ⟨[_], rfl, rfl, rfl, rfl⟩
+    | true :: fb0 =>
+      cases hL1 : extract H h (min c (2 ^ h)) fb0 hs1 with
+      | none => rw [extract_succ_true_none H h c fb0 hs1 hL1] at he1; cases he1
+      | some rL1 =>
+        cases hL2 : extract H h (min c (2 ^ h)) fb0 hs2 with
+        | none => rw [extract_succ_true_none H h c fb0 hs2 hL2] at he2; cases he2
+        | some rL2 =>
+          obtain ⟨xl1, ml1, f1, s1⟩ := rL1
+          obtain ⟨xl2, ml2, f2, s2⟩ := rL2
+          have len1 := extract_length H hH h _ fb0 hs1 xl1 ml1 f1 s1 hl1 hL1
+          have len2 := extract_length H hH h _ fb0 hs2 xl2 ml2 f2 s2 hl2 hL2
+          by_cases hc : c > 2 ^ h
+          · cases hR1 : extract H h (c - 2 ^ h) f1 s1 with
+            | none => rw [extract_succ_true_rnone H h c fb0 hs1 _ _ _ _ hL1 hc hR1] at he1; cases he1
+            | some rR1 =>
+              cases hR2 : extract H h (c - 2 ^ h) f2 s2 with
+              | none => rw [extract_succ_true_rnone H h c fb0 hs2 _ _ _ _ hL2 hc hR2] at he2; cases he2
+              | some rR2 =>
+                obtain ⟨xr1, mr1, g1, u1⟩ := rR1
+                obtain ⟨xr2, mr2, g2, u2⟩ := rR2
+                rw [extract_succ_true_rsome H h c fb0 hs1 _ _ _ _ _ _ _ _ hL1 hc hR1] at he1
+                rw [extract_succ_true_rsome H h c fb0 hs2 _ _ _ _ _ _ _ _ hL2 hc hR2] at he2
+                simp only [Option.some.injEq, Prod.mk.injEq] at he1 he2
+                obtain ⟨hx1, rfl, rfl, rfl⟩ := he1
+                obtain ⟨hx2, rfl, rfl, rfl⟩ := he2
+                have lenr1 := extract_length H hH h _ f1 s1 xr1 mr1 _ _ len1.2 hR1
+                have lenr2 := extract_length H hH h _ f2 s2 xr2 mr2 _ _ len2.2 hR2
+                by_cases heq : xl1 ++ xr1 = xl2 ++ xr2
+                · have hinj := List.append_inj heq (by rw [len1.1, len2.1])
+                  obtain ⟨rfl, rfl⟩ := hinj
+                  rcases extract_root_determines H hH h _ fb0 hs1 hs2 xl1 ml1 ml2 f1 f2 s1 s2 hl1 hl2 hL1 hL2 with
+                    ⟨p, hp1, hp2, rfl, rfl⟩ | hcol
+                  · rcases extract_root_determines H hH h _ f1 s1 s2 xr1 mr1 mr2 _ _ _ _ len1.2 len2.2 hR1 hR2 with
+                      ⟨q, hq1, hq2, rfl, rfl⟩ | hcol
+                    · left
+                      exact ⟨p ++ q, by rw [hp1, hq1, List.append_assoc], by rw [hp2, hq2, List.append_assoc], rfl, rfl⟩
+                    · right; exact hcol
+                  · right; exact hcol
+                · right; exact ⟨_, _, heq, by rw [hx1, hx2]⟩
+          · rw [extract_succ_true_single H h c fb0 hs1 _ _ _ _ hL1 hc] at he1
+            rw [extract_succ_true_single H h c fb0 hs2 _ _ _ _ hL2 hc] at he2
+            simp only [Option.some.injEq, Prod.mk.injEq] at he1 he2
+            obtain ⟨hx1, rfl, rfl, rfl⟩ := he1
+            obtain ⟨hx2, rfl, rfl, rfl⟩ := he2
+            by_cases heq : xl1 ++ xl1 = xl2 ++ xl2
+            · have hinj := List.append_inj heq (by rw [len1.1, len2.1])
+              obtain ⟨rfl, _⟩ := hinj
+              rcases extract_root_determines H hH h _ fb0 hs1 hs2 xl1 ml1 ml2 _ _ _ _ hl1 hl2 hL1 hL2 with
+                ⟨p, hp1, hp2, rfl, rfl⟩ | hcol
+              · left; exact ⟨p, hp1, hp2, rfl, rfl⟩
+              · right; exact hcol
+            · right; exact ⟨_, _, heq, by rw [hx1, hx2]⟩
+
+/-- two proofs with the same count and flags that both validate to the same root carry the same hashes, or a
+    collision is exhibited: altering a hash makes validation fail -/
+theorem populate_hashes_determined (H : Bytes → Bytes) (hH : ∀ b, (H b).length = 32) (n : Nat) (hn : 0 < n)
+    (hD : IsCeilLog2 n (maxDepth n)) (fl : List Bool) (hs1 hs2 : List Bytes)
+    (hl1 : ∀ y ∈ hs1, y.length = 32) (hl2 : ∀ y ∈ hs2, y.length = 32) (r : Bytes) (p1 p2 : List Bytes)
+    (h1 : populate H n fl hs1 = .done r p1) (h2 : populate H n fl hs2 = .done r p2) :
+    hs1 = hs2 ∨ Collision H := by
+  rw [populate_eq_extract H n hn hD.1] at h1 h2
+  cases he1 : extract H (maxDepth n) n fl hs1 with
+  | none => rw [he1] at h1; cases h1
+  | some res1 =>
+    cases he2 : extract H (maxDepth n) n fl hs2 with
+    | none => rw [he2] at h2; cases h2
+    | some res2 =>
+      obtain ⟨x1, m1, f1, s1⟩ := res1
+      obtain ⟨x2, m2, f2, s2⟩ := res2
+      rw [he1] at h1; rw [he2] at h2
+      simp only at h1 h2
+      split at h1
+      · cases h1
+      · next hz1 =>
+        split at h1
+        · cases h1
+        · split at h2
+          · cases h2
+          · next hz2 =>
+            split at h2
+            · cases h2
+            · simp only [PopOut.done.injEq] at h1 h2
+              obtain ⟨rfl, _⟩ := h1
+              obtain ⟨rfl, _⟩ := h2
+              have e1 : s1 = [] := List.eq_nil_of_length_eq_zero (by simpa using hz1)
+              have e2 : s2 = [] := List.eq_nil_of_length_eq_zero (by simpa using hz2)
+              subst e1; subst e2
+              rcases extract_root_determines H hH _ _ fl hs1 hs2 _ m1 m2 f1 f2 [] [] hl1 hl2 he1 he2 with ⟨p, hp1, hp2, _, _⟩ | hc
+              · left; rw [hp1, hp2]
+              · right; exact hc
